@@ -6,6 +6,9 @@ import (
 	"math/big"
 	"time"
 
+	bridgekeeper "github.com/tellor-io/layer/x/bridge/keeper"
+	bridgetypes "github.com/tellor-io/layer/x/bridge/types"
+
 	sdk "github.com/cosmos/cosmos-sdk/types"
 )
 
@@ -100,47 +103,9 @@ func (o *OracleC14) AfterBlock(c *Chain, b *BlockCtx) []*Violation {
 						continue
 					}
 					seen[id] = true
-					l := byQ[string(QueryID(BridgeQueryData(true, id)))]
-					if int(m.Ids2[k]) >= len(l) {
-						out = append(out, o.v(b.H, "claim", "ClaimDeposit", "claim-without-aggregate", "deposit %d index %d claimed but the deposit query has %d aggregates", id, m.Ids2[k], len(l)))
-						continue
-					}
-					a := l[m.Ids2[k]]
-					if o.prevFlag[aggKey(a)] {
-						out = append(out, o.v(b.H, "claim", "ClaimDeposit", "claimed-from-flagged-aggregate", "deposit %d claimed from an aggregate that was already flagged", id))
-					}
-					age := b.Time.Sub(time.UnixMilli(int64(a.TsMs)))
-					if age < 12*time.Hour {
-						out = append(out, o.v(b.H, "claim", "ClaimDeposit", "claimed-too-young", "deposit %d claimed %s after its aggregate (12 h required)", id, age))
-					} else if age == 12*time.Hour {
-						o.count("grey_exactly_12h")
-					}
-					if thr, ok := thresholdAt(v, a.TsMs); ok && a.Agg.ReporterPower < thr {
-						out = append(out, o.v(b.H, "claim", "ClaimDeposit", "claimed-below-threshold", "deposit %d claimed from an aggregate with power %d, the two-thirds threshold in force at report time was %d", id, a.Agg.ReporterPower, thr))
-					}
-					raw := a.Agg.AggregateValue
-					if len(raw) >= 2 && raw[0] == '0' && (raw[1] == 'x' || raw[1] == 'X') {
-						raw = raw[2:]
-					}
-					bz, err := hexDecode(raw)
-					if err != nil {
-						out = append(out, o.v(b.H, "claim", "ClaimDeposit", "claimed-undecodable-value", "deposit %d claimed from a value that is not hex", id))
-						continue
-					}
-					_, to, amt, tip, err := DecodeAddrStringUintUint(bz)
-					if err != nil {
-						out = append(out, o.v(b.H, "claim", "ClaimDeposit", "claimed-undecodable-value", "deposit %d claimed from a value that does not decode as (address,string,uint256,uint256)", id))
-						continue
-					}
-					rcpt, err := sdk.AccAddressFromBech32(to)
-					if err != nil {
-						out = append(out, o.v(b.H, "claim", "ClaimDeposit", "claimed-to-invalid-recipient", "deposit %d claimed although the reported recipient %q is not an address", id, truncate(to, 40)))
-						continue
-					}
-					mint := new(big.Int).Div(amt, e12)
-					tp := new(big.Int).Div(tip, e12)
-					if tp.Cmp(mint) > 0 {
-						out = append(out, o.v(b.H, "claim", "ClaimDeposit", "claimed-tip-above-amount", "deposit %d claimed although the tip %s exceeds the amount %s", id, tp, mint))
+					jv, mint, tp, rcpt, ok := o.judgeClaim(b.H, b.Time, v, byQ, o.prevFlag, "claim", id, m.Ids2[k])
+					out = append(out, jv...)
+					if !ok {
 						continue
 					}
 					wantMint.Add(wantMint, mint)
@@ -235,6 +200,9 @@ func (o *OracleC14) AfterBlock(c *Chain, b *BlockCtx) []*Violation {
 			}
 		}
 	}
+	if len(out) == 0 {
+		out = append(out, o.claimProbes(c, b, v, byQ, curFlag)...)
+	}
 	// ---- withdrawal ids strictly increase by one; each id has an aggregate attesting (recipient, sender, amount)
 	wd, err := b.Ref.App.BridgeKeeper.WithdrawalId.Get(v.ctx)
 	if err == nil {
@@ -301,3 +269,120 @@ func (o *OracleC14) AfterBlock(c *Chain, b *BlockCtx) []*Violation {
 }
 
 func (o *OracleC14) End(c *Chain) []*Violation { return nil }
+
+// judgeClaim evaluates the statement's claim guards for a claim of (deposit id, aggregate index) that the chain
+// accepted. ok=false: the claim should not have been possible at all (violations say why).
+func (o *OracleC14) judgeClaim(h int64, now time.Time, v *View, byQ map[string][]AggInfo, flags map[string]bool, oracle string, id, idx uint64) (out []*Violation, mint, tp *big.Int, rcpt sdk.AccAddress, ok bool) {
+	l := byQ[string(QueryID(BridgeQueryData(true, id)))]
+	if int(idx) >= len(l) {
+		out = append(out, o.v(h, oracle, "ClaimDeposit", "claim-without-aggregate", "deposit %d index %d claimed but the deposit query has %d aggregates", id, idx, len(l)))
+		return
+	}
+	a := l[idx]
+	if flags[aggKey(a)] {
+		out = append(out, o.v(h, oracle, "ClaimDeposit", "claimed-from-flagged-aggregate", "deposit %d claimed from an aggregate that was already flagged", id))
+	}
+	age := now.Sub(time.UnixMilli(int64(a.TsMs)))
+	if age < 12*time.Hour {
+		out = append(out, o.v(h, oracle, "ClaimDeposit", "claimed-too-young", "deposit %d claimed %s after its aggregate (12 h required)", id, age))
+	} else if age == 12*time.Hour {
+		o.count("grey_exactly_12h")
+	}
+	if thr, okT := thresholdAt(v, a.TsMs); okT && a.Agg.ReporterPower < thr {
+		out = append(out, o.v(h, oracle, "ClaimDeposit", "claimed-below-threshold", "deposit %d claimed from an aggregate with power %d, the two-thirds threshold in force at report time was %d", id, a.Agg.ReporterPower, thr))
+	}
+	raw := a.Agg.AggregateValue
+	if len(raw) >= 2 && raw[0] == '0' && (raw[1] == 'x' || raw[1] == 'X') {
+		raw = raw[2:]
+	}
+	bz, err := hexDecode(raw)
+	if err != nil {
+		out = append(out, o.v(h, oracle, "ClaimDeposit", "claimed-undecodable-value", "deposit %d claimed from a value that is not hex", id))
+		return
+	}
+	_, to, amt, tip, err := DecodeAddrStringUintUint(bz)
+	if err != nil {
+		out = append(out, o.v(h, oracle, "ClaimDeposit", "claimed-undecodable-value", "deposit %d claimed from a value that does not decode as (address,string,uint256,uint256)", id))
+		return
+	}
+	rcpt, err = sdk.AccAddressFromBech32(to)
+	if err != nil {
+		out = append(out, o.v(h, oracle, "ClaimDeposit", "claimed-to-invalid-recipient", "deposit %d claimed although the reported recipient %q is not an address", id, truncate(to, 40)))
+		return
+	}
+	mint = new(big.Int).Div(amt, e12)
+	tp = new(big.Int).Div(tip, e12)
+	if tp.Cmp(mint) > 0 {
+		out = append(out, o.v(h, oracle, "ClaimDeposit", "claimed-tip-above-amount", "deposit %d claimed although the tip %s exceeds the amount %s", id, tp, mint))
+		return
+	}
+	return out, mint, tp, rcpt, true
+}
+
+// claimProbes: on cache contexts (nothing is written back) every (deposit id, aggregate index) the state knows is
+// claimed through the real message server. A claim the chain accepts must satisfy the statement's guards, mint
+// exactly the reported amount, and make every further claim of that id fail — in a later message and inside the
+// same message.
+func (o *OracleC14) claimProbes(c *Chain, b *BlockCtx, v *View, byQ map[string][]AggInfo, curFlag map[string]bool) []*Violation {
+	var out []*Violation
+	app := b.Ref.App
+	ms := bridgekeeper.NewMsgServerImpl(app.BridgeKeeper)
+	creator := c.Accounts.Addr(0).String()
+	supply := func(ctx sdk.Context) *big.Int { return app.BankKeeper.GetSupply(ctx, Denom).Amount.BigInt() }
+	for id := uint64(0); id <= 6; id++ {
+		l := byQ[string(QueryID(BridgeQueryData(true, id)))]
+		for k := 0; k < len(l) && k < 4; k++ {
+			cctx, _ := v.ctx.CacheContext()
+			s0 := supply(cctx)
+			err := probeMsg(cctx, func(x sdk.Context) error {
+				_, e := ms.ClaimDeposits(x, &bridgetypes.MsgClaimDepositsRequest{Creator: creator, DepositIds: []uint64{id}, Indices: []uint64{uint64(k)}})
+				return e
+			})
+			o.count("probe_claims")
+			if err != nil {
+				continue
+			}
+			o.count("probe_claims_accepted")
+			if h0, dup := o.claimed[id]; dup {
+				out = append(out, o.v(b.H, "claim-probe", "ClaimDeposit", "deposit-claimed-twice", "deposit %d was turned into tokens at height %d and can be claimed again on the state after block %d", id, h0, b.H))
+				return out
+			}
+			jv, mint, _, _, ok := o.judgeClaim(b.H, b.Time, v, byQ, curFlag, "claim-probe", id, uint64(k))
+			out = append(out, jv...)
+			if !ok || len(jv) > 0 {
+				return out
+			}
+			if got := new(big.Int).Sub(supply(cctx), s0); got.Cmp(mint) != 0 {
+				cls := "mint-amount"
+				if !mint.IsInt64() {
+					cls += ":amount-beyond-int64"
+				}
+				out = append(out, o.v(b.H, "claim-probe", "ClaimDeposit", cls, "claim of deposit %d index %d minted %s, the reported amount / 10^12 is %s", id, k, got, mint))
+				return out
+			}
+			// a second claim of the same deposit (any index) in a later message
+			for k2 := 0; k2 < len(l) && k2 < 4; k2++ {
+				if err := probeMsg(cctx, func(x sdk.Context) error {
+					_, e := ms.ClaimDeposits(x, &bridgetypes.MsgClaimDepositsRequest{Creator: creator, DepositIds: []uint64{id}, Indices: []uint64{uint64(k2)}})
+					return e
+				}); err == nil {
+					out = append(out, o.v(b.H, "claim-probe", "ClaimDeposit", "deposit-claimed-twice", "deposit %d can be claimed (index %d) and then claimed again (index %d) on the state after block %d", id, k, k2, b.H))
+					return out
+				}
+			}
+			// the same id twice inside one message: all or nothing, never two mints
+			cctx2, _ := v.ctx.CacheContext()
+			s1 := supply(cctx2)
+			err = probeMsg(cctx2, func(x sdk.Context) error {
+				_, e := ms.ClaimDeposits(x, &bridgetypes.MsgClaimDepositsRequest{Creator: creator, DepositIds: []uint64{id, id}, Indices: []uint64{uint64(k), uint64(k)}})
+				return e
+			})
+			if got2 := new(big.Int).Sub(supply(cctx2), s1); err == nil && got2.Cmp(mint) > 0 {
+				out = append(out, o.v(b.H, "claim-probe", "ClaimDeposit", "deposit-claimed-twice", "one message listing deposit %d twice is accepted on the state after block %d and mints %s (a single claim mints %s)", id, b.H, got2, mint))
+				return out
+			}
+			o.count("probe_repeat_claims_refused")
+		}
+	}
+	return out
+}
